@@ -68,6 +68,9 @@ func (e *Engine) verifyFunc(fn *ssa.Function) (u *Unit) {
 		g := u.heapGet(st, "G:"+fn.Pkg.Pkg.Path()+".init$guard", "Bool")
 		u.assume("true", not(g))
 	}
+	// implicit precondition of every unit: the request holds no lock on entry (callers that hold one while
+	// calling are checked at their call sites: requires NoLocksHeld() / inlining)
+	u.heapSet(st, "GH:locks", "(Array Int Int)", "((as const (Array Int Int)) 0)")
 	u.emitAxioms(fr, st)
 	for _, gi := range e.globalInvs {
 		c := &Clause{Fn: gi.Fn, FnName: gi.FnName, Label: gi.Label}
@@ -131,6 +134,13 @@ func (e *Engine) verifyFunc(fn *ssa.Function) (u *Unit) {
 				u.oblige(fr.obName("assert", cl.Label), "assert", cl.Tags, "true", "false", fr.pos(fn.Pos()),
 					"anchor call site not found: "+cl.Callee+" #"+fmt.Sprint(cl.Ordinal)+" -- "+cl.Text)
 			}
+		}
+	}
+	if u.locksUsed {
+		for ri, r := range fr.retsByPos() {
+			h := u.heapGet(r.st, "GH:locks", "(Array Int Int)")
+			u.oblige(fr.obName("lock-balanced", fmt.Sprintf("ret%d", ri+1)), "lock", []string{"C20"}, r.reach,
+				fmt.Sprintf("(= %s ((as const (Array Int Int)) 0))", h), r.pos, "every lock taken by the function is released on this return path")
 		}
 	}
 	if ob := u.oblige(fr.obName("canary", "exit-unreachable"), "canary", nil, exitReach, "false", "", "vacuity canary: must be refutable"); ob != nil {
